@@ -1,4 +1,3 @@
 package main
 
-func c05Scenarios() []scenario { return nil }
 func c10Scenarios() []scenario { return nil }
